@@ -12,8 +12,9 @@
 (* Code: one pass populates the buffer and triangulates every usable edge   *)
 (* that is not yet marked Triangulated (UsableEdges leaves out the XY edges *)
 (* of the last buffered plane unless the window is at the bottom), then     *)
-(* Shift moves the window by min(Remaining, BufRows - 2) planes and keeps   *)
-(* the flags of the planes that stay.                                       *)
+(* Shift moves the window by at most min(Remaining, BufRows - 2) planes     *)
+(* (the code: exactly that many) and keeps the flags of the planes that     *)
+(* stay.                                                                    *)
 (* Invariants for every NZ <= MaxZ and BufRows in 3..NZ: every edge row is  *)
 (* triangulated exactly once, and only while the cube rows it needs are in  *)
 (* the window.                                                              *)
@@ -44,8 +45,11 @@ Pass == /\ pc = "pass"
            /\ bad' = (bad \/ \E r \in doXY : \E cz \in NeedsXY(ZOffset + r) : ~InWindow(cz))
         /\ pc' = IF Remaining = 0 THEN "end" ELSE "shift"
         /\ UNCHANGED <<NZ, BufRows, ZOffset>>
+\* The code moves the window as far as it can, by Min(Remaining, BufRows - 2) planes; the requirements
+\* hold for every smaller move too, so the specification allows them (a change of the step size is not
+\* a violation of C12).
 Shift == /\ pc = "shift"
-         /\ LET rows == Min(Remaining, BufRows - 2) IN
+         /\ \E rows \in 1..Min(Remaining, BufRows - 2) :
             /\ ZOffset' = ZOffset + rows
             /\ flagXY' = [r \in 0..(MaxZ - 1) |-> IF r + rows <= BufRows - 1 THEN flagXY[r + rows] ELSE FALSE]
             /\ flagZ' = [r \in 0..(MaxZ - 1) |-> IF r + rows <= BufRows - 2 THEN flagZ[r + rows] ELSE FALSE]
